@@ -132,6 +132,11 @@ def full_report(lat, have_plaq=True):
     r["q_ap"] = []
     for i in range(len(lat.plaquettes) if have_plaq else 0):
         a, b = graph_utils.adjacent_plaquettes(lat, i)
+        # the helper returns two parallel 1-d sequences (plaquettes, shared edges) that its callers zip; a 0-d result for a
+        # plaquette with exactly one neighbour is not "the plaquettes adjacent to a plaquette" as a sequence
+        r.setdefault("q_ap_shape_bad", [])
+        if np.ndim(a) != 1 or np.ndim(b) != 1 or np.shape(a) != np.shape(b):
+            r["q_ap_shape_bad"].append((i, np.shape(a), np.shape(b)))
         r["q_ap"].append(([int(x) for x in np.atleast_1d(a)], [int(x) for x in np.atleast_1d(b)]))
     return r
 
@@ -311,6 +316,8 @@ def spec_tables(P, S, edges, crossing, vals, R, tolv):
             if got != want:
                 bad.append(("query-adjacent-plaquettes", f"adjacent_plaquettes(lattice, {i}) = {R['q_ap'][i]} but the table says {want}"))
                 break
+        for (i, sa, sb) in R.get("q_ap_shape_bad", [])[:3]:
+            bad.append(("query-adjacent-plaquettes-shape", f"adjacent_plaquettes(lattice, {i}) returned arrays of shapes {sa} and {sb}; two parallel 1-d sequences (plaquette, shared edge) are expected"))
     return bad
 
 
